@@ -110,6 +110,8 @@ pub fn make_case(seed: u64, _tier: Tier, idx: u64) -> Case {
         assign_random_shapes(&mut m, &mut rng, 0.6);
         if rng.chance(0.5) {
             shuffle_names(&mut m, &mut rng);
+        } else if rng.chance(0.3) {
+            confusable_terminal_names(&mut m, &mut rng);
         }
         // long records: fieldsets with 8-14 positions (index suffixes with two digits, many
         // fields of the same type), appended as extra nonterminals reachable from the start
